@@ -7,7 +7,7 @@
    helpers copy the count back) and the seeded mutant C09-m2 (arraySort swallowing the budget error) are about; the
    correspondence and the direct oracle exercise them on the real library. *)
 From Coq Require Import ZArith.
-From BS Require Import Model.Base Model.Num Model.Arith Model.ExprParser Model.Script Model.Interp Model.LibCore Model.LibAll Model.Run Proofs.C09 Proofs.LibAll Proofs.C09term Proofs.C09termLib.
+From BS Require Import Model.Base Model.Num Model.Arith Model.ExprParser Model.Script Model.Interp Model.LibCore Model.LibAll Model.LibPartial Model.Run Proofs.C09 Proofs.LibAll Proofs.LibPartial Proofs.C09term Proofs.C09termLib.
 Local Open Scope Z_scope.
 
 (* EXACT (1): the limit is tested at the head of every statement, after counting it: with L statements started, statement
@@ -61,17 +61,19 @@ Theorem C09_premises_hold_for_modelled_library : forall cfg, lib_monotone (libco
 Proof. intros cfg. split; [exact (libcore_monotone cfg)|exact (libcore_lockstep cfg)]. Qed.
 Print Assumptions C09_premises_hold_for_modelled_library.
 
-Theorem C09_premises_hold_for_combined_library : forall cfg, lib_monotone (libfull cfg) /\ lib_lockstep (libfull cfg) cfg.
-Proof. intros cfg. split; [exact (libfull_monotone cfg)|exact (libfull_lockstep cfg)]. Qed.
+Theorem C09_premises_hold_for_combined_library : forall cfg, lib_monotone (libfull2 cfg) /\ lib_lockstep (libfull2 cfg) cfg.
+Proof. intros cfg. split; [exact (libfull2_monotone cfg)|exact (libfull2_lockstep cfg)]. Qed.
 Print Assumptions C09_premises_hold_for_combined_library.
 
 (* ======================= "... so no script can run forever" =======================
-   FULL statement as designed (DESIGN.md, C09_terminates) - kept visible; it is NOT provable because it is FALSE:
+   FULL statement as designed (DESIGN.md, C09_terminates) - kept visible:
        forall cfg lib url_rel lint_lines, 0 < c_max cfg -> (premises on lib) ->
        forall sc w, exists fuel, fst (execute_script cfg lib url_rel lint_lines fuel sc w) <> OFuel.
-   Refutation (machine-checked below, C09_example_deep_compare_answers_OFuel): `a = arrayNew() ; arrayPush(a, a) ; return a == a`
-   answers OFuel for EVERY fuel, with the modelled library and the empty initial world: relop (and systemCompare, mathMax/mathMin
-   as LFuel, and parse_script of an included text as RFuel) report the exhaustion of THEIR OWN fuel as the same outcome OFuel.
+   It is not what is proved, because OFuel is also the model's way of DECLINING inside a library function (LFuel: e.g. the fuelled
+   deep equality of the lifted arrayIndexOf on a value that contains itself) and inside the parser model (RFuel; dead by C06_total):
+   for an arbitrary library the shape is false.  (Until the repair F29 the comparison operators themselves were such a source:
+   `a = arrayNew() ; arrayPush(a, a) ; return a == a` raised RecursionError out of execute_script, which the model reported as OFuel
+   for every fuel; the operator handler now contains it and the model answers null - C09_example_cyclic_compare_is_null below.)
 
    What is proved: the recursion of the interpreter never runs out.  The tower eval/call/exec is taken with its depth-0 answer
    as a parameter `bot` (Proofs/C09term.v evalB/callB/execB, execute_script_bot: a copy of the model's tower that answers `bot`
@@ -216,15 +218,10 @@ Example C09_example_unbounded_recursion_stops : forall bot fuel,
   fst r = ORt (msg_exceeded 10) /\ w_count (snd r) = 11.
 Proof. exact rec_stops. Qed.
 
-(* the refutation of the designed statement: a = arrayNew() ; arrayPush(a, a) ; return a == a *)
-Example C09_example_deep_compare_answers_OFuel :
-  (forall fuel, fst (execute_script (mkcfg 100 false true) (libcore (mkcfg 100 false true)) no_url no_lint fuel
+(* comparing a value that contains itself: null (the RecursionError is contained, F29), whatever the fuel beyond 6 and the tower *)
+Example C09_example_cyclic_compare_is_null : forall bot fuel,
+  fst (execute_script_bot (mkcfg 100 false true) (libcore (mkcfg 100 false true)) no_url no_lint bot (6 + fuel)
      [ SExpr (Some (U "a")) (ECall (U "arrayNew") []);
        SExpr None (ECall (U "arrayPush") [EVar (U "a"); EVar (U "a")]);
-       SReturn (Some (EBin (U "==") (EVar (U "a")) (EVar (U "a")))) ] (world0 [])) = OFuel) /\
-  (* ... and it is not the interpreter's fuel: every tower gives it *)
-  (forall bot fuel, fst (execute_script_bot (mkcfg 100 false true) (libcore (mkcfg 100 false true)) no_url no_lint bot (6 + fuel)
-     [ SExpr (Some (U "a")) (ECall (U "arrayNew") []);
-       SExpr None (ECall (U "arrayPush") [EVar (U "a"); EVar (U "a")]);
-       SReturn (Some (EBin (U "==") (EVar (U "a")) (EVar (U "a")))) ] (world0 [])) = OFuel).
-Proof. split; [exact cyc_always_fuel|exact cyc_not_from_tower]. Qed.
+       SReturn (Some (EBin (U "==") (EVar (U "a")) (EVar (U "a")))) ] (world0 [])) = OVal VNull.
+Proof. intros bot fuel. vm_compute. reflexivity. Qed.
